@@ -1,5 +1,9 @@
 package main
 
+import (
+	"go/ast"
+)
+
 // Facts for C09 (Initial CRYPTO framing): varint width bounds, the frame type
 // numbers the builders hard-code, the TLS extension numbers of the scrambler.
 func init() {
@@ -35,6 +39,94 @@ func init() {
 		if err != nil {
 			return err
 		}
-		return c.EmitIntConst(w, pp, "InvalidByteCount", "InvalidByteCount")
+		if err := c.EmitIntConst(w, pp, "InvalidByteCount", "InvalidByteCount"); err != nil {
+			return err
+		}
+		fatal, where := reassembleErrorFatal(root)
+		w.P("/-- u_packet_packer.go: what a method of uPacketPacker does when clienthellod.ReassembleCRYPTOFrames")
+		w.P("    fails (the CRYPTO frames of a retransmission are not one contiguous range): `true` = the error")
+		w.P("    is returned (PackCoalescedPacket fails, the connection is closed), `false` = the error branch")
+		w.P("    returns a nil error (the frames are sent as they are). %s -/", where)
+		w.P("def marshalReassembleFatal : Bool := %s", leanBool(fatal))
+		return nil
 	})
+}
+
+// reassembleErrorFatal looks, in every method of uPacketPacker, for `x, err := …ReassembleCRYPTOFrames(…)`
+// followed by (or inside the init of) `if err != nil { … return …, <e> }` and reports whether <e>, the
+// last result of a return statement in that branch, is something other than the identifier nil. It does
+// not depend on variable names, on the method's name or on what else the branch does. When the shape
+// is not found the fact keeps its default (true: the behaviour of the tree this check was built on);
+// the correspondence driver exercises the branch, so a wrong default shows up as a DIFF.
+func reassembleErrorFatal(root *Pkg) (bool, string) {
+	var found, fatal bool
+	judge := func(as *ast.AssignStmt, ifs *ast.IfStmt) {
+		if as == nil || ifs == nil || len(as.Rhs) != 1 || len(as.Lhs) < 2 {
+			return
+		}
+		call, ok := as.Rhs[0].(*ast.CallExpr)
+		if !ok || callName(call) != "ReassembleCRYPTOFrames" {
+			return
+		}
+		errID, ok := as.Lhs[len(as.Lhs)-1].(*ast.Ident)
+		if !ok {
+			return
+		}
+		be, ok := ifs.Cond.(*ast.BinaryExpr)
+		if !ok {
+			return
+		}
+		x, okx := be.X.(*ast.Ident)
+		if !okx || x.Name != errID.Name {
+			return
+		}
+		ast.Inspect(ifs.Body, func(n ast.Node) bool {
+			if _, isLit := n.(*ast.FuncLit); isLit {
+				return false
+			}
+			if r, ok := n.(*ast.ReturnStmt); ok && len(r.Results) > 0 {
+				found = true
+				if id, ok := r.Results[len(r.Results)-1].(*ast.Ident); !ok || id.Name != "nil" {
+					fatal = true
+				}
+			}
+			return true
+		})
+	}
+	for _, f := range root.Files {
+		for _, d := range f.Decls {
+			fd, ok := d.(*ast.FuncDecl)
+			if !ok || fd.Body == nil || fd.Recv == nil || len(fd.Recv.List) != 1 {
+				continue
+			}
+			t := fd.Recv.List[0].Type
+			if st, ok := t.(*ast.StarExpr); ok {
+				t = st.X
+			}
+			if id, ok := t.(*ast.Ident); !ok || id.Name != "uPacketPacker" {
+				continue
+			}
+			ast.Inspect(fd.Body, func(n ast.Node) bool {
+				switch b := n.(type) {
+				case *ast.BlockStmt:
+					for i, st := range b.List {
+						if as, ok := st.(*ast.AssignStmt); ok && i+1 < len(b.List) {
+							if ifs, ok := b.List[i+1].(*ast.IfStmt); ok {
+								judge(as, ifs)
+							}
+						}
+					}
+				case *ast.IfStmt:
+					if as, ok := b.Init.(*ast.AssignStmt); ok {
+						judge(as, b)
+					}
+				}
+				return true
+			})
+		}
+	}
+	if !found {
+		return true, "(shape not recognised in this tree: default)"
+	}
+	return fatal, "(read from the error branch)"
 }
